@@ -123,6 +123,10 @@ class GenFile:
         self.unavailable = []
 
     def emit(self, lean_name, lean_type, thunk):
+        if os.environ.get('VERIF_TRANS_FORCE_NONE') == '1':
+            # self-test (tools/tienone.sh): every definition unavailable -- all Tie modules must still build
+            self.defs.append([lean_name, lean_type, None, 'forced by VERIF_TRANS_FORCE_NONE'])
+            return
         try:
             term = thunk()
             self.defs.append([lean_name, lean_type, term, None])
